@@ -15,7 +15,7 @@ type local struct {
 	Field2 leaf.Plain
 }
 
-var version = "dev"
+var version = "development-build-without-version"
 
 var secretLiteral = "a literal long enough to be obfuscated"
 
